@@ -515,7 +515,7 @@ def assemble(group, items, units, preamble, canary=False, drop_hints=()):
         a.add(open(os.path.join(ROOT, p)).read().rstrip("\n"), p, "prelude", p, [])
     a.add("// ---- extracted types")
     for it in items:
-        if it["ftext"].lstrip().startswith(("#[derive", "pub struct", "pub enum")) and "vx_contract!" not in it["ftext"]:
+        if it["ftext"].lstrip().startswith(("#[derive", "pub struct", "pub enum", "pub type")) and "vx_contract!" not in it["ftext"]:
             a.add("// from %s:%d-%d" % (it["file"], it["line_start"], it["line_end"]))
             a.add(it["ftext"].rstrip("\n"), it["id"], "type", it["id"], [])
             if it.get("extra_spec"):
